@@ -852,6 +852,7 @@ func checkC13(p *Prog, res *Result, tier string) {
 			return "", false
 		}
 		checkErrorPreservation(p, res, "C13-R8", inScope, fallible, "a partition whose scan failed would be reported as complete: the read succeeds with keys missing")
+		checkFirstWinsErrors(p, res, "C13-R8", inScope)
 		// the same below the scanner: an adapter's iterator hands the engine's error on instead of ending the data (C11-R11)
 		sub11 := p.subResult("C11", tier)
 		for _, o := range sub11.Obls {
@@ -1040,6 +1041,85 @@ func checkBorderContiguity(p *Prog, r *Roles, res *Result, sp *ssa.Package) {
 				continue
 			}
 			revEx := extractsOf(dc)[1]
+			// .. and every border but the last one is looked at: no iteration goes on to the next partition without
+			// having decoded its end, except where the index was found to be the last one (a second, home-made test of
+			// "is this a version key" in front of the decoder lets borders through that the decoder would have recognised)
+			if lp := loopOf(dc.Block()); lp != nil {
+				var header *ssa.BasicBlock
+				for hb := range lp {
+					for _, pr := range hb.Preds {
+						if !lp[pr] {
+							header = hb
+						}
+					}
+				}
+				c3 := fmt.Sprintf("%s: the end border #%d of every partition but the last is decoded", funcName(f), i+1)
+				if header != nil {
+					isLastTest := func(cf condFact) bool {
+						if cf.X == nil || !((cf.Op == token.EQL && cf.Want) || (cf.Op == token.NEQ && !cf.Want)) {
+							return false
+						}
+						for _, v := range []ssa.Value{cf.X, cf.Y} {
+							if bo, ok := resolve(v).(*ssa.BinOp); ok && bo.Op == token.SUB {
+								if k, ok := constInt(bo.Y); ok && k == 1 {
+									if lc, ok := resolve(bo.X).(*ssa.Call); ok {
+										if bi, ok := lc.Common().Value.(*ssa.Builtin); ok && bi.Name() == "len" {
+											return true
+										}
+									}
+								}
+							}
+						}
+						return false
+					}
+					var skipAt ssa.Instruction
+					var skipPath []*ssa.BasicBlock
+					for _, sb := range header.Succs {
+						if !lp[sb] {
+							continue
+						}
+						first := true
+						ins, path := searchFrom(sb, 0, searchOpts{
+							stop: func(i ssa.Instruction) bool { return i == ssa.Instruction(dc) },
+							bad: func(i ssa.Instruction) bool {
+								if _, isRet := i.(*ssa.Return); isRet {
+									return false
+								}
+								if i.Block() == header {
+									if first && sb == header {
+										first = false
+										return false
+									}
+									return true
+								}
+								return false
+							},
+							skipEdge: func(from *ssa.BasicBlock, si int) bool {
+								if !lp[from.Succs[si]] {
+									return true // leaves the loop
+								}
+								if ifOf(from) == nil {
+									return false
+								}
+								for _, cf := range expandFact(edgeFact(edge{from, si}), 0) {
+									if isLastTest(cf) {
+										return true
+									}
+								}
+								return false
+							},
+						})
+						if ins != nil {
+							skipAt, skipPath = ins, path
+						}
+					}
+					if skipAt != nil {
+						res.bad("C13-R5", c3, p.pos(dc.Pos()), "an iteration can go on to the next partition without decoding the end border of this one, although it is not the last: a border inside one key's versions that the extra test does not recognise stays where the engine put it, and that key is split between two workers (returned twice, counted twice): "+blockPath(p, skipPath))
+					} else {
+						res.ok("C13-R5", c3, p.pos(dc.Pos()), "only the last partition skips the decoder")
+					}
+				}
+			}
 			c2 := fmt.Sprintf("%s: every mid-version end border #%d is realigned", funcName(f), i+1)
 			found := false
 			for _, b := range f.Blocks {
@@ -1393,4 +1473,111 @@ func checkWorkersOnAdjustedPartitions(p *Prog, r *Roles, res *Result, sp *ssa.Pa
 			res.ok("C13-R5", construct, p.pos(adjust[0].Pos()), "every use of the partition list after the engine call sees the result of the realigning function only")
 		}
 	}
+}
+
+// checkFirstWinsErrors: an outcome kept with "the first one wins" (sync.Once, or a store guarded by "nothing stored
+// yet") must only ever be a failure - otherwise the first worker to finish, which is a successful one whenever a
+// failing worker spends its time in retries, takes the place and the failure of the slow one is dropped.
+func checkFirstWinsErrors(p *Prog, res *Result, rule string, inScope func(*ssa.Function) bool) {
+	errT := types.Universe.Lookup("error").Type()
+	for _, f := range p.AllFuncs {
+		if f.Blocks == nil || !inScope(f) {
+			continue
+		}
+		n := 0
+		for _, c := range callsIn(f) {
+			sc := c.Common().StaticCallee()
+			if sc == nil || sc.Signature.Recv() == nil || sc.Name() != "Do" || !isNamed(sc.Signature.Recv().Type(), "sync", "Once") || len(c.Common().Args) != 2 {
+				continue
+			}
+			mc, ok := resolve(c.Common().Args[1]).(*ssa.MakeClosure)
+			if !ok {
+				continue
+			}
+			lit, ok := mc.Fn.(*ssa.Function)
+			if !ok {
+				continue
+			}
+			// error-typed values the literal stores into captured cells: value = load of a captured cell / a binding
+			for _, b := range lit.Blocks {
+				for _, ins := range b.Instrs {
+					st, ok := ins.(*ssa.Store)
+					if !ok || !types.Identical(st.Val.Type(), errT) {
+						continue
+					}
+					if _, isFree := st.Addr.(*ssa.FreeVar); !isFree {
+						continue
+					}
+					// the stored value in the frame of f
+					var outer ssa.Value
+					v := resolve(st.Val)
+					if ld, ok := v.(*ssa.UnOp); ok && ld.Op == token.MUL {
+						if fv, ok := ld.X.(*ssa.FreeVar); ok {
+							for i, q := range lit.FreeVars {
+								if q == fv && i < len(mc.Bindings) {
+									outer = mc.Bindings[i]
+								}
+							}
+						}
+					}
+					if fv, ok := v.(*ssa.FreeVar); ok {
+						for i, q := range lit.FreeVars {
+							if q == fv && i < len(mc.Bindings) {
+								outer = mc.Bindings[i]
+							}
+						}
+					}
+					n++
+					construct := fmt.Sprintf("%s: outcome kept by sync.Once #%d", funcName(f), n)
+					if isNilConst(v) {
+						continue
+					}
+					known := false
+					for _, cf := range dominatingFacts(c.Block()) {
+						if cf.X == nil {
+							continue
+						}
+						x, y := cf.X, cf.Y
+						if isNilConst(resolve(x)) {
+							x, y = y, x
+						}
+						if !isNilConst(resolve(y)) || !((cf.Op == token.NEQ && cf.Want) || (cf.Op == token.EQL && !cf.Want)) {
+							continue
+						}
+						// x is the error: the binding's cell content or the value itself
+						if outer != nil {
+							if al, ok := outer.(*ssa.Alloc); ok {
+								if ld, ok := resolve(x).(*ssa.UnOp); ok && ld.Op == token.MUL && ld.X == ssa.Value(al) {
+									known = true
+								}
+								for _, rv := range reachingStoreValues(al) {
+									if sameVal(rv, x) {
+										known = true
+									}
+								}
+							} else if sameVal(outer, x) {
+								known = true
+							}
+						}
+					}
+					if known {
+						res.ok(rule, construct, p.pos(c.Pos()), "stored only where the error was found non-nil")
+					} else {
+						res.bad(rule, construct, p.pos(c.Pos()), "the first outcome to arrive is kept whether it is a failure or not: a partition that fails does so after its retries, i.e. last, so the place is taken by the nil of a partition that succeeded and the read answers from the healthy partitions only, without an error")
+					}
+				}
+			}
+		}
+	}
+}
+
+// reachingStoreValues: the values stored into a local cell.
+func reachingStoreValues(al *ssa.Alloc) []ssa.Value {
+	var out []ssa.Value
+	for _, ref := range *al.Referrers() {
+		if st, ok := ref.(*ssa.Store); ok && st.Addr == ssa.Value(al) {
+			out = append(out, st.Val)
+		}
+	}
+	return out
 }
